@@ -14,6 +14,8 @@ TRUSTED = ['each listed allocation construct allocates exactly one block (MakeUn
 DROPPED = ['everything that is not control structure or an allocation construct (effect abstraction); conditions become non-deterministic, so every syntactic path is covered',
            'callee effects are taken from the callee\'s own allocation contract (table CALLEE_ALLOCS), calls to functions not in the table and not known allocation-free are an extraction break']
 ASSUMPTIONS = ['user functors and payload constructors are outside the count (the property counts the library\'s own blocks)']
+# real-code drivers that exercise what this unit proves (thorough tier: sanity run on the tree under check)
+DRIVERS = [('alloc_count.cpp', [], 'default')]
 
 ALLOC_PAT = re.compile(r'\bnew\b|\bMakeUnique\s*<|\bMakeShared\s*<|\bMakeCore\s*<|\bMakeUniqueJob\s*\(|\.reserve\s*\(|\.resize\s*\(|\.push_back\s*\(|\.emplace_back\s*\(|std::make_(?:unique|shared)\s*<')
 # calls whose allocation effect is known from their own contract (proved in this unit or in unit core / when)
